@@ -438,6 +438,7 @@ bool SessionManager::adopt_outbound_socket(const PeerId& peer_id, SocketHandle s
 }
 
 bool SessionManager::adopt_inbound_socket(SocketHandle socket, const std::optional<PeerId>& expected_peer) {
+    set_recv_timeout(socket, kHandshakeTimeout);
     std::array<std::uint8_t, kPeerIdSize> peer_bytes{};
     if (!recv_all(socket, peer_bytes.data(), peer_bytes.size())) {
         close_socket(socket);
@@ -545,6 +546,8 @@ void SessionManager::accept_loop() {
             continue;
         }
 
+        // One connection that never sends its identity must not keep every other peer waiting.
+        set_recv_timeout(from_native(client_socket), kHandshakeTimeout);
         std::array<std::uint8_t, kPeerIdSize> peer_bytes{};
         if (!recv_all(from_native(client_socket), peer_bytes.data(), peer_bytes.size())) {
             close_socket(from_native(client_socket));
